@@ -55,6 +55,12 @@ def cbc_mac(key: bytes, data: bytes) -> bytes:
     return y
 
 
+#: The associated-data length field is 2 octets big endian. RFC 3610 switches to a longer encoding from 0xFF00 on; the KNX
+#: documents do not describe associated data of that size (no frame can carry it), so the reference is undefined there.
+MAX_ASSOCIATED_DATA = 0xFEFF
+MAX_PAYLOAD = 0xFFFF
+
+
 def keystream(key: bytes, ctr0: bytes, n: int) -> bytes:
     """First n octets of the counter-mode key stream (128 bit big endian increment)."""
     out = b""
@@ -68,7 +74,8 @@ def keystream(key: bytes, ctr0: bytes, n: int) -> bytes:
 def block0(seq: bytes, sa: bytes, da: bytes, at: int, eff: int, tpci_octet: int, q: int) -> bytes:
     """B0.  `tpci_octet` is the TPCI octet as it stands in the frame (low 2 bits ignored)."""
     assert len(seq) == 6 and len(sa) == 2 and len(da) == 2
-    return seq + sa + da + bytes((0, ((at & 1) << 7) | (eff & 0x0F), (tpci_octet & 0xFC) | 0x03, 0xF1, 0, q & 0xFF))
+    # Q is the 2 octet payload length field of the CCM block B0 (its high octet is 0 for everything a frame can carry)
+    return seq + sa + da + bytes((0, ((at & 1) << 7) | (eff & 0x0F), (tpci_octet & 0xFC) | 0x03, 0xF1, (q >> 8) & 0xFF, q & 0xFF))
 
 
 def ctr0(seq: bytes, sa: bytes, da: bytes) -> bytes:
